@@ -1117,11 +1117,12 @@ func (c *closureCase) Nontrivial() bool  { return true }
 // modCase: a main module and a second module it requires, replaced by a directory (beside the main module or
 // nested in it); every package is asked for SourceDir, one position is located.
 type modCase struct {
-	Main   string `json:"main"`          // module path of the main module
-	Lib    string `json:"lib"`           // module path of the required module
-	LibRel string `json:"librel"`        // where the replacement lives, relative to the main module: ../lib | ./inner | ../deep/er/lib
-	Query  int    `json:"query"`         // which package the located position is in
-	Cgo    bool   `json:"cgo,omitempty"` // the package a/b of the main module and lib/sub are cgo-only packages (every Go file imports "C"): the go tool compiles them to files in its build cache whose //line directives name the sources
+	Main   string `json:"main"`           // module path of the main module
+	Lib    string `json:"lib"`            // module path of the required module
+	LibRel string `json:"librel"`         // where the replacement lives, relative to the main module: ../lib | ./inner | ../deep/er/lib
+	Query  int    `json:"query"`          // which package the located position is in
+	Link   bool   `json:"link,omitempty"` // the directory the layout is loaded from is a symbolic link to where it is
+	Cgo    bool   `json:"cgo,omitempty"`  // the package a/b of the main module and lib/sub are cgo-only packages (every Go file imports "C"): the go tool compiles them to files in its build cache whose //line directives name the sources
 	out    string
 	line   string
 	have   bool
@@ -1145,9 +1146,18 @@ func (c *modCase) eval() {
 		}
 		defer os.RemoveAll(root)
 		root, _ = filepath.EvalSymlinks(root)
+		wroot := root
+		if c.Link {
+			// the whole layout is reached through a symbolic link (a linked checkout, /tmp -> /private/tmp): the go tool
+			// names directories and files through the path it was started in, and so must everything derived from them
+			wroot = filepath.Join(root, "real")
+			os.MkdirAll(wroot, 0o755)
+			os.Symlink("real", filepath.Join(root, "via"))
+			root = filepath.Join(root, "via")
+		}
 		ps := c.pkgs()
 		w := func(rel, content string) {
-			full := filepath.Join(root, rel)
+			full := filepath.Join(wroot, rel)
 			os.MkdirAll(filepath.Dir(full), 0o755)
 			os.WriteFile(full, []byte(content), 0o644)
 		}
@@ -1268,10 +1278,10 @@ func (c *modCase) Oracle(out string) string {
 }
 func (c *modCase) Shrinks() []Case { return nil }
 func (c *modCase) Key() string {
-	return fmt.Sprintf("%s %s %s q%d cgo=%v", c.Main, c.Lib, c.LibRel, c.Query, c.Cgo)
+	return fmt.Sprintf("%s %s %s q%d cgo=%v link=%v", c.Main, c.Lib, c.LibRel, c.Query, c.Cgo, c.Link)
 }
 func (c *modCase) Classes() []string {
-	return []string{"replacement:" + c.LibRel, fmt.Sprintf("query:%d", c.Query)}
+	return []string{"replacement:" + c.LibRel, fmt.Sprintf("query:%d", c.Query), fmt.Sprintf("through-a-link:%v", c.Link)}
 }
 func (c *modCase) Nontrivial() bool { return true }
 
@@ -1294,6 +1304,9 @@ func init() {
 									continue
 								}
 								yield(&modCase{Main: m, Lib: l, LibRel: rl, Query: q, Cgo: (q+ri)%3 == 0})
+								if (q+mi+ri)%2 == 0 {
+									yield(&modCase{Main: m, Lib: l, LibRel: rl, Query: q, Cgo: (q+ri)%3 == 1, Link: true})
+								}
 							}
 						}
 					}
